@@ -140,6 +140,9 @@ def run(chk):
                 pr = PathResolver(prog, f)
             chk.touched([f])
             ok, guard = guarded(prog, f, flow, pr, n, [s for s in subjects if s is not None])
+            if ok and k == "call" and n.get("op") == "[]" and n.get("obj") is not None and n.get("args") and container_kind((d or {}).get("cls")) == "seq":
+                # an index is exact: 0 <= i < size() - a guard that merely mentions the container (`i > size()`, `i >= size() + 1`) admits one slot too many
+                ok = index_in_range(prog, f, flow, n, n["obj"], n["args"][0])
             inst = "%s uses %s" % (strip_targs(f["q"]), what)
             e = sites.setdefault(inst, {"ok": True, "where": "%s:%d" % (f["file"], n["l"]), "fn": f["q"], "n": 0, "guard": guard})
             e["n"] += 1
@@ -205,6 +208,31 @@ def comparisons(prog, f, flow, n):
             out.append((a["lhs"], op, a["rhs"]))
             out.append((a["rhs"], FLIP[op], a["lhs"]))
     return out
+
+
+def index_in_range(prog, f, flow, n, cont, idx):
+    """facts at n: 0 <= idx (or idx unsigned) and idx < number of elements of cont"""
+    locs = ref_inits(f)
+
+    def origin(x):
+        x = peel(x)
+        for _ in range(3):
+            if isinstance(x, dict) and x.get("k") == "ref" and x.get("rk") == "local":
+                v = locs.get(x.get("vid"))
+                if v is not None and v.get("init") is not None and not any(y.get("k") == "assign" and strip_casts(y["lhs"]).get("vid") == x.get("vid") for y in walk(f["body"])):
+                    x = peel(v["init"])
+                    continue
+            break
+        return x
+
+    def same_index(a):
+        return same_var(peel(a), peel(idx)) or same_var(origin(a), origin(idx))
+    cmp_ = comparisons(prog, f, flow, n)
+    it = prog.T(f, peel(idx).get("t")) if peel(idx).get("t") is not None else ""
+    lower = it.replace("const ", "").startswith("unsigned") or "size_t" in it or "size_type" in it or \
+        any(same_index(l) and ((op == ">=" and is_zero(r)) or (op == ">" and is_lit(r, -1))) for l, op, r in cmp_)
+    upper = any(same_index(l) and op == "<" and is_extent(prog, f, r, cont, locs) for l, op, r in cmp_)
+    return lower and upper
 
 
 def position_bounds(prog, chk, r3, boot):
